@@ -88,6 +88,11 @@ def parse_responses(data: bytes, methods: List[bytes], eof: bool, max_msgs: int 
                        'headers': hs, 'body': b'', 'complete': False, 'framing': fr,
                        'interim': isinstance(ev, h11.InformationalResponse)}
                 out.append(cur)
+                if method == b'CONNECT' and isinstance(ev, h11.Response) and 200 <= ev.status_code < 300:
+                    cur['complete'] = True       # switching to tunnel mode: the response ends with its header block
+                    cur['framing'] = 'none'
+                    done = True
+                    break
                 if isinstance(ev, h11.InformationalResponse):
                     cur['complete'] = True
                     if ev.status_code == 101:
